@@ -107,7 +107,11 @@ def check(case):
         if not _CER_HOLDER:
             _CER_HOLDER.append(holder)
         holder = _CER_HOLDER[0]
-        holder.set(sut.make_cer(packages={k: v for k, v in table.items() if v is not None}))
+        known = {k: v for k, v in table.items() if v is not None}
+        cer = sut.make_cer(packages=known)
+        if not known:
+            cer.packages = None  # no package table at all (the class default) - "a package table that maps to nothing"
+        holder.set(cer)
         sut.setup_cer_based(holder)
     elif case.get("resolver") == "formatless":
         # evaluators as ahbicht's own factory builds them when no format is given, behind a single-set provider
